@@ -277,12 +277,12 @@ func (t *collationSortedTree[K, V]) Prefix(p K) iter.Seq2[K, V] {
 		return t.All()
 	}
 
-	keyS, colKey := t.cok.Transform(p)
+	keyS, _ := t.cok.Transform(p)
 
+	// the sort key of p is not a byte prefix of the sort keys of the strings
+	// starting with p (level separators, tailorings), so no subtree can be
+	// selected from it: scan everything and filter on the original bytes.
 	root := t.root
-	if t.root.pointer != nil {
-		root = lowestCommonParent[V, *collateLeafNode[V]](root, colKey)
-	}
 
 	hasPrefix := func(k K, v V) bool {
 		leafKeyS := []byte(string(k))
